@@ -126,6 +126,45 @@ fn impl_prelude(text: &str, root_end: usize, ps: &[(u32, u32)], rs: &[((u32, u32
     })
 }
 
+/// trigger characters the server advertises (completion + signature help, from the real `server_capabilities`)
+/// plus the configured postfix trigger (`Emmyrc::default().completion.postfix`) and a few structural characters
+fn trigger_chars() -> Vec<String> {
+    let caps = serde_json::to_value(emmylua_ls::verif_handlers::server_capabilities(&ClientCapabilities::default())).unwrap_or(Value::Null);
+    let mut v: Vec<String> = vec![];
+    for path in [["completionProvider", "triggerCharacters"], ["signatureHelpProvider", "triggerCharacters"], ["signatureHelpProvider", "retriggerCharacters"]] {
+        if let Some(a) = caps[path[0]][path[1]].as_array() {
+            v.extend(a.iter().filter_map(|x| x.as_str().map(|s| s.to_string())));
+        }
+    }
+    v.push(emmylua_code_analysis::Emmyrc::default().completion.postfix.clone());
+    for c in ["@", ".", ":", "(", "[", "\"", "'", ",", "#", "-", "{", " ", "<", "|", "/", "\\", "=", "*", "`"] {
+        v.push(c.to_string());
+    }
+    v.sort();
+    v.dedup();
+    v.retain(|c| !c.is_empty());
+    v
+}
+
+/// tiny documents: every trigger character at offset 0, at end of file, alone on a line, after only whitespace,
+/// doubled; single-token documents; the empty document
+fn trigger_docs(triggers: &[String]) -> Vec<(String, String)> {
+    let mut out: Vec<(String, String)> = vec![];
+    for c in triggers {
+        for d in [
+            format!("{c}"), format!("{c}{c}"), format!("{c}x"), format!("{c} x"), format!("{c}\nlocal a = 1\n"), format!("local a = 1\nx{c}"),
+            format!("local a = 1\na{c}{c}"), format!("local a = 1\n{c}\nlocal b = a\n"), format!("  {c}"), format!("\t{c}\n"), format!("\n{c}"),
+            format!("\r\n {c}\r\n"), format!("x {c}"), format!("f({c}"), format!("---{c}"), format!("--{c}"), format!("x{c}\n{c}"),
+        ] {
+            out.push((d, c.clone()));
+        }
+    }
+    for d in ["", "x", "1", "\"s\"", "'", "--c", "---", "local", "end", "...", "[[", "]]", "\n", "\r", "é", "😀", "\u{feff}", "::"] {
+        out.push((d.to_string(), String::new()));
+    }
+    out
+}
+
 fn clampu(v: u32) -> u64 {
     v as u64
 }
@@ -150,6 +189,45 @@ pub fn run(args: &Args, report: &mut Report) {
             report.evaluations = 1;
             judge(report, text, method, &params, &reply);
             return;
+        }
+    }
+
+    // ---- family: trigger characters at offset 0 / EOF / alone / doubled, single-token and empty documents; every
+    // column (+ past end) × every position method; completion and signature help with the trigger context set both ways
+    let triggers = trigger_chars();
+    report.extra.insert("trigger_characters".into(), json!(triggers));
+    let mut seen_t: HashSet<(u64, u64)> = HashSet::new();
+    for (text, trig) in trigger_docs(&triggers) {
+        report.count("docs_trigger_family");
+        session.set_text(&text);
+        let mut ps = docs::dense_positions(&text, false);
+        let n = docs::lines(&text).len() as u32;
+        ps.push((0, 1));
+        ps.push((0, 7));
+        ps.push((n.saturating_sub(1), 1000));
+        ps.push((n, 0));
+        ps.sort();
+        ps.dedup();
+        let th = h64(&text);
+        for p in &ps {
+            let mut reqs: Vec<(&str, Value)> = POSITION_METHODS.iter().map(|m| (*m, position_params(m, &uri, *p, *p))).collect();
+            let td = json!({"uri": uri});
+            let tc = if trig.is_empty() { "@".to_string() } else { trig.clone() };
+            reqs.push(("textDocument/completion", json!({"textDocument": td, "position": pos_json(*p), "context": {"triggerKind": 2, "triggerCharacter": tc}})));
+            reqs.push(("textDocument/completion", json!({"textDocument": td, "position": pos_json(*p), "context": {"triggerKind": 3}})));
+            reqs.push(("textDocument/completion", json!({"textDocument": td, "position": pos_json(*p)})));
+            reqs.push(("textDocument/signatureHelp", json!({"textDocument": td, "position": pos_json(*p), "context": {"triggerKind": 2, "triggerCharacter": tc, "isRetrigger": false}})));
+            reqs.push(("textDocument/signatureHelp", json!({"textDocument": td, "position": pos_json(*p), "context": {"triggerKind": 1, "isRetrigger": true}})));
+            for (m, params) in reqs {
+                let reply = session.request(m, params.clone());
+                report.evaluations += 1;
+                report.count(&format!("reply_{}", reply.kind()));
+                report.count("requests_trigger_family");
+                if seen_t.insert((th, h64(&format!("{m}{params}")))) && !text.is_empty() {
+                    report.distinct_nontrivial += 1;
+                }
+                judge(report, &text, m, &params, &reply);
+            }
         }
     }
 
